@@ -6,6 +6,9 @@ CONSTANTS
   MaxCode = 0
   MaxAT = 2
   MaxDev = 2
+  MaxSteps = 99
+  Seeded = FALSE
+  Vary = {"post", "refresh"}
   Narrow = FALSE
 INVARIANT NoViolation
 VIEW View
